@@ -1475,3 +1475,25 @@ Proof.
   intros sep t Hsep Hwf. unfold strip_frozen. rewrite parse_cql_name by assumption.
   rewrite strip_to_py by assumption. rewrite print_to_py. reflexivity.
 Qed.
+
+(* ------------------------------------------------------------------ codec routing through the wrappers *)
+Lemma codec_unwrap : forall t, codec (unwrap t) = codec t.
+Proof. induction t using ty_ind2; simpl; auto. Qed.
+
+Lemma route_parsed : forall t des pv, route des (parsed t) pv = (parsed (unwrap t), pv).
+Proof.
+  intros t. induction t using ty_ind2; intros des pv; try reflexivity.
+  - cbn [parsed unwrap]. destruct ts as [|x [|y l]]; reflexivity.
+  - cbn [parsed unwrap route]. change (is_wrapper (lit "FrozenType")) with true. cbn iota.
+    destruct des; apply IHt.
+  - cbn [parsed unwrap route]. change (is_wrapper (lit "ReversedType")) with true. cbn iota.
+    destruct des; apply IHt.
+Qed.
+
+Lemma size_route_parsed : forall t, size_route (parsed t) = parsed (unwrap t).
+Proof.
+  intros t. induction t using ty_ind2; try reflexivity.
+  - cbn [parsed unwrap]. destruct ts as [|x [|y l]]; reflexivity.
+  - cbn [parsed unwrap size_route]. change (is_wrapper (lit "FrozenType") && wrapper_size_delegates (lit "FrozenType")) with true. cbn iota. apply IHt.
+  - cbn [parsed unwrap size_route]. change (is_wrapper (lit "ReversedType") && wrapper_size_delegates (lit "ReversedType")) with true. cbn iota. apply IHt.
+Qed.
